@@ -288,10 +288,14 @@ class Ops:
         st.assume(z3.Implies(z3.And(i >= 0, i < n), z3.And(z3.Select(dom, k), z3.Select(pos, k) == i)))
 
     def dict_has(self, st, r, k):
+        if st.track_keys:
+            st.terms.append(("key", k))     # a decoded document is on this path: its key schema needs the looked-up keys
         self.dict_wf_key(st, r, k)
         return z3.Select(st.rd("$dom", r), k)
 
     def dict_get(self, st, r, k):
+        if st.track_keys:
+            st.terms.append(("key", k))
         return z3.Select(st.rd("$map", r), k)
 
     def dict_set(self, st, r, k, v):
